@@ -75,6 +75,7 @@ type Conn struct {
 	Visibility map[imap.MailboxID]imap.MailboxVisibility
 
 	updateCh chan imap.Update
+	doneCh   chan struct{}
 	closed   bool
 	outbox   []imap.Update
 
@@ -97,6 +98,7 @@ func New(usernames []string, password string) *Conn {
 		Messages:    map[imap.MessageID]*RMessage{},
 		Visibility:  map[imap.MailboxID]imap.MailboxVisibility{},
 		updateCh:    make(chan imap.Update),
+		doneCh:      make(chan struct{}),
 		Watchdog:    60 * time.Second,
 	}
 
@@ -109,6 +111,7 @@ func (c *Conn) Reopen() {
 	defer c.mu.Unlock()
 
 	c.updateCh = make(chan imap.Update)
+	c.doneCh = make(chan struct{})
 	c.closed = false
 }
 
@@ -151,9 +154,11 @@ func (c *Conn) Close(context.Context) error {
 	c.mu.Lock()
 	defer c.mu.Unlock()
 
+	// The update channel is not closed (a concurrent Deliver would panic on it): gluon stops reading when it closes
+	// the connector; pending deliveries are released through doneCh.
 	if !c.closed {
 		c.closed = true
-		close(c.updateCh)
+		close(c.doneCh)
 	}
 
 	return nil
@@ -519,6 +524,9 @@ func (c *Conn) DropOutbox() int {
 	return n
 }
 
+// ErrClosed is recorded when the connector was closed (user removed / server closed) before the update was taken.
+var ErrClosed = errors.New("vconn: connector closed")
+
 // ErrNotAcked is recorded when an update was not acknowledged within the watchdog.
 var ErrNotAcked = errors.New("vconn: update not acknowledged within the watchdog")
 
@@ -565,8 +573,18 @@ func (c *Conn) deliverOne(ch chan imap.Update, u imap.Update) Delivery {
 	timer := time.NewTimer(c.Watchdog)
 	defer timer.Stop()
 
+	c.mu.Lock()
+	done := c.doneCh
+	c.mu.Unlock()
+
 	select {
 	case ch <- u:
+	case <-done:
+		d.Err = ErrClosed
+		d.Elapsed = time.Since(start)
+		c.record(d)
+
+		return d
 	case <-timer.C:
 		d.Err = ErrNotAcked
 		d.Elapsed = time.Since(start)
@@ -578,11 +596,27 @@ func (c *Conn) deliverOne(ch chan imap.Update, u imap.Update) Delivery {
 	ctx, cancel := context.WithTimeout(context.Background(), c.Watchdog)
 	defer cancel()
 
+	go func() {
+		select {
+		case <-done:
+			// closed while waiting: give the update goroutine a moment to acknowledge, then stop waiting
+			time.Sleep(50 * time.Millisecond)
+			cancel()
+		case <-ctx.Done():
+		}
+	}()
+
 	err, ok := u.WaitContext(ctx)
 
 	switch {
 	case ctx.Err() != nil:
 		d.Err = ErrNotAcked
+
+		select {
+		case <-done:
+			d.Err = ErrClosed
+		default:
+		}
 	case ok:
 		d.Err, d.Acked = err, true
 	default: // channel closed without a value: success
